@@ -305,6 +305,18 @@ def state_index(ctx):
             ctx.ob(rule, f.site, ok and not positional, "" if ok and not positional else
                    "mode labels are positions / do not derive from the selected mode indices",
                    role="labels", line=kwv.lineno)
+        # the data follow the order of the request, like the labels: no index array that selects the rows / columns of the
+        # state is a SORTED function of the requested modes while the labels keep the requested order
+        labels_sorted = any(derives(f.node, kwv).has_call("sorted", "sort", "np.sort") for kwv in lab)
+        for c in walk_no_nested(f.node):
+            if isinstance(c, ast.Call) and (dotted(c.func) or "").split(".")[-1] in ("sort", "sorted", "argsort") and c.args:
+                ids = rd.cfg.node_of_expr(c)
+                dv = derives(f.node, c.args[0], ids[0] if ids else None)
+                if mp in dv.params or any(dd.var == mp for dd in dv.defs):
+                    ok = labels_sorted
+                    ctx.ob(rule, f.site, ok, "" if ok else f"`{ast.unparse(c)[:60]}` puts the selected rows in ascending mode order "
+                           f"while the labels follow the order of `{mp}`: state(modes=[1, 0]) labels position 0 'q[1]' but holds the "
+                           "data of mode 0", role="selection-order", line=c.lineno)
     # Fock: axes are positional among active modes; the label of position j is get_modes()[j]
     f = ctx.tree.func("backends/fockbackend/backend.py", "FockBackend.state")
     mp = f.pos_params[1]
